@@ -20,6 +20,23 @@ CHECKS = {
         design="4/C05"),
 }
 
+CHECKS["C04"] = dict(
+    technique="exhaustive enumeration against a hand-written address-byte partition (differential with reference codec)",
+    text="Thorough: every (address object, 16-bit frame) write, every device address x all 2^16 upper halves x 3 low bytes, "
+         "every instance object x 2^16 surroundings, the decode partition over all 2^16 and all 2^24 frames, every "
+         "(object, wrong size 1..64) refusal and every ordered pair of objects for equality are enumerated completely "
+         "(54M evaluations). Quick: the same strata on a seed-dependent stride (5M). Complete over the stated domain in "
+         "the thorough tier.",
+    note="Trusted: the partition of the address/instance byte transcribed in props/c04.py from IEC 62386-102 7.2 / -103 7.2.",
+    design="4/C04")
+CHECKS["C06"] = dict(
+    technique="exhaustive enumeration of (response class, bus outcome) against an oracle keyed on the response kind",
+    text="Complete on every run: all response classes reachable from any command (34) x {None, 256 clean frames, 256 "
+         "framing-error frames}, every named bit of every bitmap class, nine kinds of illegal constructor argument.",
+    note="Trusted: the per-kind oracle in props/c06.py (yes/no, numeric, MASK, bitmap, enum, generic) written from the "
+         "property statement; bit names are taken from the class under test (their order is checked, their wording is not).",
+    design="4/C06")
+
 NOT_BUILT_REASON = "check not built yet in this round (planned, see DESIGN.md section 4); not claimed until it is registered"
 
 
